@@ -42,7 +42,7 @@ func init() {
 // ---------------------------------------------------------------- key generation: one member sends malformed messages
 
 var c12DkgKinds = []string{
-	"pk-index-huge", "pk-index-equal-n", "pk-nil-key", "pk-empty-binary", "pk-short-binary", "pk-binary-one-short", "pk-binary-two-short", "pk-binary-one-long", "pk-identity-key", "pk-index-of-other",
+	"pk-index-huge", "pk-index-equal-n", "pk-nil-key", "pk-empty-binary", "pk-short-binary", "pk-binary-one-short", "pk-binary-two-short", "pk-binary-one-long", "pk-identity-key", "pk-index-of-other", "pk-echo-of-recipients-key",
 	"deal-nil", "deal-index-huge", "deal-empty-fields", "deal-nonce-short", "deal-nonce-long",
 	"responses-nil-entry", "response-nil-inner", "response-index-huge", "response-inner-index-huge", "responses-empty",
 }
@@ -60,6 +60,20 @@ func subC12Dkg(kind string) string {
 		go inst[i].Loop()
 	}
 	att := net.Add(ids[2])
+	// what the attacker learns: the public keys the members broadcast
+	var pkMu sync.Mutex
+	seenKeys := map[int][]byte{}
+	if ch, err := att.SubscribeMsg(50, dkg.PublicKey{}); err == nil && ch != nil {
+		go func() {
+			for m := range ch {
+				if pk, ok := m.Msg.Message.(*dkg.PublicKey); ok && pk.Publickey != nil {
+					pkMu.Lock()
+					seenKeys[int(pk.Index)] = append([]byte{}, pk.Publickey.Binary...)
+					pkMu.Unlock()
+				}
+			}
+		}()
+	}
 	groupA := [][]byte{ids[0], ids[1], ids[2]}
 	sidA := "a1"
 	// honest members start session A
@@ -130,6 +144,26 @@ func subC12Dkg(kind string) string {
 			sendAll(&dkg.PublicKey{SessionId: sidA, Index: 2, Publickey: &vss.PublicKey{Binary: []byte{0}}})
 		case "pk-index-of-other":
 			sendAll(&dkg.PublicKey{SessionId: sidA, Index: 0, Publickey: &vss.PublicKey{Binary: g2}})
+		case "pk-echo-of-recipients-key":
+			// the attacker (a group member) receives every member's broadcast key and sends each member
+			// ITS OWN key back under the attacker's index
+			for _, to := range []int{0, 1} {
+				var own []byte
+				for tries := 0; tries < 200 && own == nil; tries++ {
+					pkMu.Lock()
+					own = seenKeys[to]
+					pkMu.Unlock()
+					if own == nil {
+						time.Sleep(5 * time.Millisecond)
+					}
+				}
+				if own == nil {
+					own = g2
+				}
+				ctx, cancel := context.WithTimeout(context.Background(), time.Second)
+				att.Request(ctx, ids[to], &dkg.PublicKey{SessionId: sidA, Index: 2, Publickey: &vss.PublicKey{Binary: own}})
+				cancel()
+			}
 		}
 	}
 	if len(dealKinds)+len(respKinds) > 0 {
